@@ -1,0 +1,6 @@
+//go:build !verif
+
+package app
+
+// verifState is a no-op without the verif build tag.
+func verifState(_ *Process, _ string) {}
